@@ -92,7 +92,7 @@ PROPS = {
         "assumptions": ["journals with two prices for one commodity pair on one day are not generated (excluded by the property)"],
     },
     "C03": {
-        "lean": ["Knut.Properties.C03", "Knut.Properties.C03Bound", "Knut.Properties.C03Bridge", "Knut.Properties.C03Window", "Knut.Properties.C03Report", "Knut.Properties.C03Command"],
+        "lean": ["Knut.Properties.C03", "Knut.Properties.C03Bound", "Knut.Properties.C03Bridge", "Knut.Properties.C03Window", "Knut.Properties.C03Report", "Knut.Properties.C03Command", "Knut.FactsAgree.TransPrice"],
         "level": "proof",
         "claim": "PARTIAL proof + full correspondence + exact monitor. Proved for all journals/days on the model of ComputePrices/Valuate: C03_flow_valued_at_booking_day (every booking is "
                  "valued as quantity if in V, else Truncate8(quantity x price of its own day)), C03_missing_price_is_error / C03_missing_price_fails_day (a needed absent price fails the day: no number), "
@@ -275,7 +275,7 @@ PROPS = {
                         "sort.Search in Partition.Align is modelled as a linear search over the (strictly increasing) period ends"],
     },
     "C12": {
-        "lean": ["Knut.Properties.C12"],
+        "lean": ["Knut.Properties.C12", "Knut.FactsAgree.TransPrice"],
         "level": "proof",
         "claim": "Lean theorems for all lists of price declarations (any graph: trees, alternative paths, cycles, disconnected parts, redeclarations in any order), "
                  "all valuation commodities, over the model of lib/model/price/prices.go (Insert/addPrice, the breadth-first Normalize with its queue and result map, "
